@@ -89,7 +89,7 @@ func c07World(tp *Tape, env *Env) (*Plan, *Violation) {
 	}
 	layout := Layout{Indent: "    ", FinalNL: true}
 	w := World{Readers: []ReaderSpec{{Text: renderNodes(prog.Nodes, layout, 0)}}}
-	w.Host = HostSpec{Storer: []string{"rec", "mem", "default"}[tp.Pick([]int{4, 4, 1}, "storer")], Probes: true, Seed: "s1", Handlers: cfg.Handlers, Overrides: tp.Chance(10, "hostoverrides")}
+	w.Host = HostSpec{Storer: []string{"rec", "mem", "default", "cells"}[tp.Pick([]int{4, 4, 1, 2}, "storer")], Probes: true, Seed: "s1", Handlers: cfg.Handlers, Overrides: tp.Chance(10, "hostoverrides")}
 	if len(cfg.Handlers) > 0 {
 		w.Host.Scheds = []Sched{{Immediate: tp.Bool("immediate")}}
 	}
@@ -151,7 +151,7 @@ func c07World(tp *Tape, env *Env) (*Plan, *Violation) {
 		}
 		exps = append(exps, e)
 	}
-	plan := &Plan{Harness: 1, Property: "C07", Program: prog, Layout: &layout, World: w, Ops: ops, Extra: map[string]any{"experiments": exps}}
+	plan := &Plan{Harness: 1, Property: "C07", Program: prog, Layout: &layout, World: w, Ops: ops, Extra: map[string]any{"experiments": exps, "mid_call_saves": tp.Chance(35, "midcallsaves")}}
 	env.St.inc("worlds_run", 1)
 	env.St.sample(map[string]any{"script": readerTexts(&w), "original": describeDynOps(ops), "experiments": len(exps), "first_experiment": exps[0]})
 	journal(plan)
@@ -248,10 +248,37 @@ func c07Exec(plan *Plan, st *Stats) *Violation {
 		ops := plan.Ops
 		snaps := []*ysgo.Snapshot{orig.h.dr.Snapshot()}
 		deep := []snapCanon{canonSnap(snaps[0])}
+		// save points inside a call: the host of the original run also takes a snapshot from inside its own
+		// callbacks (a host function, a synchronously called handler - what a <<save>> command does), on the
+		// goroutine that drives the plan. Such a snapshot is a value like any other (I1), and where it equals a
+		// snapshot taken between two calls, restoring from it must do what restoring from that one does (I3).
+		var midSnaps []*ysgo.Snapshot
+		var midDeep []snapCanon
+		midByCanon := map[string]*ysgo.Snapshot{}
+		if midCall, _ := decodeExtra[bool](plan, "mid_call_saves"); midCall {
+			root := curGID()
+			orig.h.onCall = func(kind, name string) {
+				if settling || curGID() != root || len(midSnaps) >= 24 {
+					return
+				}
+				func() {
+					defer func() { recover() }()
+					sn := orig.h.dr.Snapshot()
+					midSnaps = append(midSnaps, sn)
+					midDeep = append(midDeep, canonSnap(sn))
+					midByCanon[midDeep[len(midDeep)-1].String()] = sn
+				}()
+			}
+		}
 		checkI1 := func(at string) *Violation {
 			for j := range snaps {
 				if c := canonSnap(snaps[j]); !c.equal(deep[j]) {
 					return &Violation{Clause: "C07.I1", OpIndex: j, Expected: deep[j].String(), Observed: c.String(), Note: "a snapshot changed after it was taken (" + at + ")"}
+				}
+			}
+			for j := range midSnaps {
+				if c := canonSnap(midSnaps[j]); !c.equal(midDeep[j]) {
+					return &Violation{Clause: "C07.I1", OpIndex: j, Expected: midDeep[j].String(), Observed: c.String(), Note: "a snapshot taken from inside a host callback changed after it was taken (" + at + ")"}
 				}
 			}
 			return nil
@@ -318,6 +345,13 @@ func c07Exec(plan *Plan, st *Stats) *Violation {
 		// "first element of the node delivered".
 		restoreAndAlign := func(ei int, T *dynRunner, k int) (*dynRunner, *Violation) {
 			snap := snaps[k]
+			if ms, ok := midByCanon[deep[k].String()]; ok && ei%2 == 0 {
+				// the same state, saved from inside a callback
+				snap = ms
+				if st != nil {
+					st.probe("restored_from_a_snapshot_taken_inside_a_host_callback")
+				}
+			}
 			if exps[ei].Durable {
 				snap = rebuiltSnapshot(snap)
 				if st != nil {
